@@ -77,11 +77,19 @@ def execute(ctx, cases):
     harness_only = bool(nd)
     failures = []
     stats = {'lines': 0, 'ok_tags': {}, 'fatal': 0, 'nontrivial_keys': set(), 'cases': 0, 'diff': 0, 'rel': 0}
-    pending = list(cases)
+    rest = list(cases)
     batch_no = 0
-    while pending:
+    single = False      # after a batch ran out of time: run the case it stopped in alone, with the whole time budget
+    batch_lines = ctx.get('batch_lines', 30000)
+    while rest:
         batch_no += 1
-        # assemble
+        # assemble a batch of bounded size: the time limit below is meant for one hanging case, not for the sum of all cases
+        # (a loaded machine once turned "3000 cases under ASan took more than 30 minutes" into a FATAL verdict)
+        pending = []
+        nl = 0
+        while rest and (not pending or (not single and nl + len(rest[0].lines) + 1 <= batch_lines)):
+            nl += len(rest[0].lines) + 1
+            pending.append(rest.pop(0))
         lines = []
         owner = []   # (case index in pending, line index in case) per emitted line
         for ci, c in enumerate(pending):
@@ -101,6 +109,17 @@ def execute(ctx, cases):
             done = len(trace)
             crashed = rc != 0
         n_complete = done if done <= len(lines) else len(lines)
+        timed_out = crashed and rc == -999
+        if timed_out and len(pending) > 1:
+            # out of time with several cases in the batch: judge the cases that finished, then run the one it stopped in alone
+            cci = (owner[n_complete] if n_complete < len(owner) else owner[-1])[0]
+            n_complete = sum(1 for (ci, _) in owner if ci < cci)
+            rest = pending[cci:] + rest
+            pending = pending[:cci]
+            single = True
+            crashed = False
+        else:
+            single = False
         # judge completed lines
         if harness_only:
             # no model replay: every completed line counts as answered (`ok` / `err` is not judged)
@@ -136,10 +155,9 @@ def execute(ctx, cases):
             failures.append(Failure(c, 'FATAL', li, lines[n_complete] if n_complete < len(lines) else '?',
                                     'FATAL %s\n%s' % (sig, tail)))
             stats['cases'] += ci + 1
-            pending = pending[ci + 1:]
+            rest = pending[ci + 1:] + rest
         else:
             stats['cases'] += len(pending)
-            pending = []
     return failures, stats
 
 def case_fails_same(ctx, lines, want_kind, want_rule, want_tag):
@@ -235,6 +253,10 @@ def main(mod, argv):
     t0 = time.time()
     tier = a.tier if a.tier in ('quick', 'thorough') else 'quick'
     ctx = {'seed': a.seed, 'tier': tier, 'pid': pid, 'mod': mod}
+    if os.environ.get('VERIF_HARNESS_TIMEOUT'):      # for testing the out-of-time path
+        ctx['harness_timeout'] = float(os.environ['VERIF_HARNESS_TIMEOUT'])
+    if os.environ.get('VERIF_BATCH_LINES'):
+        ctx['batch_lines'] = int(os.environ['VERIF_BATCH_LINES'])
     ctx['rundir'] = os.path.join(B.WORK, 'run-%s-%d' % (pid, os.getpid()))
     out_lines = []
     violations = []      # (replay path, suffix)
